@@ -117,6 +117,9 @@ func c10Op(name, tok string) (run func(s stackage.Stack) string, model func(m *l
 				m.push("shared-a", "shared-b") // the Stack in between is turned away (no-nesting)
 				return ""
 			}
+	case "PushCond": // a Condition whose expression is a Stack: a Condition like any other, also under no-nesting
+		cd := stackage.Cond("k"+tok, stackage.Eq, stackage.Or().Push(a))
+		return func(s stackage.Stack) string { s.Push(cd); return "" }, func(m *listModel) string { m.push(cd); return "" }
 	case "TransferIn": // a private one-element stack transferred into the shared one: one push, under its lock
 		// (Transfer's own verdict compares lengths it reads outside the lock and is not among the calls the
 		// statement lists: only what happens to the shared content is judged)
@@ -472,8 +475,9 @@ func c10Scenarios(c *Ctx) (out []c10Scenario, bounds []int) {
 	}
 	for _, cf := range cfgs(2) {
 		for _, b := range append([]string{"PushShared"}, ops[:8]...) {
-			out = append(out, c10Scenario{InitLen: cf[0], FIFO: cf[1] == 1, Cap: cf[2], Progs: [][]string{{"PushShared"}, {b}}, NoNest: true})
-			bounds = append(bounds, -1)
+			out = append(out, c10Scenario{InitLen: cf[0], FIFO: cf[1] == 1, Cap: cf[2], Progs: [][]string{{"PushShared"}, {b}}, NoNest: true},
+				c10Scenario{InitLen: cf[0], FIFO: cf[1] == 1, Cap: cf[2], Progs: [][]string{{"PushCond"}, {b}}, NoNest: true})
+			bounds = append(bounds, -1, -1)
 		}
 		out = append(out, c10Scenario{InitLen: cf[0], FIFO: cf[1] == 1, Cap: cf[2], Progs: [][]string{{"PushShared"}, {"PushShared"}, {"Pop"}}, NoNest: true})
 		bounds = append(bounds, 2)
